@@ -446,6 +446,9 @@ def run(facts, prop=None):
                 n_put += 1
             exp = expected(n, te)
             got = terminal(n)
+            # one byte has one encoding: `to_{be,le,ne}_bytes` of a u8 is the byte itself, of an i8 its `as u8` cast
+            if NAME.match(n) and NAME.match(n).group(3) in ("u8", "i8"):
+                got = type(got)(x for x in (("cast:i8->u8" if re.match(r"i8::to_(be|le|ne)_bytes$", str(y)) else (None if re.match(r"u8::to_(be|le|ne)_bytes$", str(y)) else y)) for y in got) if x is not None)
             s = sigs[n]
             problems = []
             if got != exp:
